@@ -32,7 +32,7 @@ func (ex *Exec) stepCall(st *State, c *ssa.Call) []*State {
 			ex.havocReachable(st, args, &c.Call)
 			return nil
 		}
-		ex.p.usedDeps[name] = true
+		ex.noteDep(name)
 		st.vals[c] = h.fn(ex, st, c, args)
 		return nil
 	}
@@ -295,14 +295,14 @@ func (ex *Exec) callStatic(st *State, c *ssa.Call, callee *ssa.Function, args []
 		ex.havocReachable(st, args, &c.Call)
 		return nil
 	}
-	ex.p.usedDeps[full] = true
+	ex.noteDep(full)
 	st.vals[c] = h.fn(ex, st, c, args)
 	return nil
 }
 
 // callOnceDo: sync.Once contract: if !done runs f exactly once, then done.
 func (ex *Exec) callOnceDo(st *State, c *ssa.Call, a []SV) []*State {
-	ex.p.usedDeps["(*sync.Once).Do"] = true
+	ex.noteDep("(*sync.Once).Do")
 	if a[0].K != KPtr || a[0].Ptr.Kind != PGlobal {
 		panic(unsupported("sync.Once that is not a package-level variable"))
 	}
